@@ -551,6 +551,12 @@ func stressDomain(lines []string) []string {
 			sc = stressTypes
 		case "obs":
 			sc = stressObs
+		case "seqcancel":
+			// WITNESS of a known finding (run only by the known-finding routine, never among the generated cases): a
+			// synchronous Sequential handler is busy; a second publisher passes its context check and waits for the handler's
+			// mutex; its context is cancelled; the handler is started for its event all the same once the mutex is free
+			out = append(out, seqCancelWitness())
+			continue
 		default:
 			out = append(out, "bad-op "+line)
 			continue
@@ -567,6 +573,41 @@ func stressDomain(lines []string) []string {
 		out = append(out, verdict)
 	}
 	return out
+}
+
+type seqCancelEv struct{ N int }
+
+func seqCancelWitness() string {
+	bus := eb.New()
+	inside, release := make(chan struct{}), make(chan struct{})
+	var mu sync.Mutex
+	var got []int
+	_ = eb.Subscribe(bus, func(e seqCancelEv) {
+		mu.Lock()
+		got = append(got, e.N)
+		mu.Unlock()
+		if e.N == 1 {
+			close(inside)
+			<-release
+		}
+	}, eb.Sequential())
+	go eb.Publish(bus, seqCancelEv{1})
+	<-inside
+	ctx, cancel := context.WithCancel(context.Background())
+	done := make(chan struct{})
+	go func() { eb.PublishContext(bus, ctx, seqCancelEv{2}); close(done) }()
+	time.Sleep(100 * time.Millisecond) // the second publisher has passed its context check and waits for the mutex
+	cancel()
+	time.Sleep(20 * time.Millisecond)
+	close(release)
+	select {
+	case <-done:
+	case <-time.After(10 * time.Second):
+		return "seqcancel hang"
+	}
+	mu.Lock()
+	defer mu.Unlock()
+	return fmt.Sprintf("seqcancel started-after-cancel=%s", b01(len(got) == 2))
 }
 
 func init() { domains["stress"] = stressDomain; _ = context.Background }
